@@ -40,6 +40,14 @@ def differential(report, ci, cls_name, programs, project=None, model="core",
     recorded in report.disagreements (not yet violations)."""
     cls = ci.Cls(cls_name)
     impl = [ci.observe(cls, p) for p in programs]
+    # a watchdog timeout on a loaded machine is not an observation of the library: look again,
+    # alone and with a budget twelve times as large, before calling it one
+    for k, (p, a) in enumerate(zip(programs, impl)):
+        if a == [1, 101]:
+            import gc
+            gc.collect()
+            impl[k] = ci.observe(cls, p, seconds=120.0)
+            report.count("timeout-retried:" + ("still-timeout" if impl[k] == [1, 101] else "answered"))
     mod = run_model_parallel(model, programs)
     out = []
     for p, a, b in zip(programs, impl, mod):
